@@ -686,7 +686,10 @@ class Executor:
                 name = v.origin + '.discr'
                 c = z3.Int(name)
                 n = self._nvariants(v.ty or ty)
-                self.axioms[name] = z3.And(c >= 0, c < n) if n else (c >= 0)
+                if n:
+                    self.axioms[name] = z3.And(c >= 0, c < n)
+                elif name not in self.axioms:
+                    self.axioms[name] = (c >= 0)
                 return Sc(c, 'isize')
         if isinstance(v, Sc) and v.ty != 'bool':
             return v
@@ -806,7 +809,11 @@ class Executor:
             elif k == 'constindex':
                 i, n, from_end = p[1], p[2], p[3]
                 if from_end:
-                    raise Inconclusive('from-end const index')
+                    cur = self.load(st, cell, tpath)
+                    if not (isinstance(cur, Tree) and cur.origin is None):
+                        raise Inconclusive('from-end index into %r' % (cur,))
+                    ln = len([kk for kk in cur.f if isinstance(kk, int)])
+                    i = ln - i
                 tpath.append((i, None))
                 ty = None
             elif k == 'index':
@@ -1108,6 +1115,23 @@ class Executor:
         if k == 'use':
             return self.eval_operand(st, frame, rv.a, dest_ty)
         if k in ('ref', 'rawref'):
+            if rv.a.proj and rv.a.proj[-1][0] == 'subslice':
+                # &slice[a..len-b]: materialise the view (read-only use)
+                base = Place(rv.a.local, rv.a.proj[:-1])
+                cell, tpath, ty = self.resolve(st, frame, base)
+                cur = self.load(st, cell, tpath)
+                if not (isinstance(cur, Tree) and cur.origin is None):
+                    raise Inconclusive('subslice of %r' % (cur,))
+                items = [cur.f[i] for i in sorted(kk for kk in cur.f if isinstance(kk, int))]
+                a = rv.a.proj[-1][1]
+                b = int(rv.a.proj[-1][2] or 0)
+                from_end = rv.a.proj[-1][3]
+                hi = len(items) - b if from_end else (b if rv.a.proj[-1][2] != '' else len(items))
+                seg = items[a:hi]
+                st.nfid += 1
+                ncell = (st.nfid, 'subslice')
+                st.cells[ncell] = Tree(dict(enumerate(seg)), None, 'slice', meta=('vec', len(seg)))
+                return Ptr(ncell, ())
             cell, tpath, ty = self.resolve(st, frame, rv.a)
             return Ptr(cell, [kk for kk, _ in tpath])
         if k == 'binop':
@@ -1125,6 +1149,10 @@ class Executor:
             if rv.a == 'Neg' and isinstance(a, Sc):
                 return Sc(self.wrap(-a.t, a.ty), a.ty)
             if rv.a == 'PtrMetadata':
+                if isinstance(a, Ptr):
+                    tv = self.load(st, a.cell, [(kk, None) for kk in a.path])
+                    if isinstance(tv, Tree) and tv.origin is None and (tv.meta and tv.meta[0] == 'vec' or all(isinstance(kk, int) for kk in tv.f)):
+                        return Sc(z3.IntVal(len([kk for kk in tv.f if isinstance(kk, int)])), 'usize')
                 return self.mk_sym(dest_ty, st.fresh('ptrmeta'))
             raise Inconclusive('unop %s on %r' % (rv.a, a))
         if k == 'cast':
